@@ -259,7 +259,9 @@ def zoneOp (st : DState) (toks : List String) : Option (DState × String) :=
       -- next/prev_transition of a sub-second time_point: the changes strictly after / strictly before the instant.
       -- With s = floor(instant): a change at T (a whole second) is after the instant iff T > s, and before it
       -- iff T < s + 1 when the instant has a fraction, T < s otherwise.
+      -- A negative `den` stands for a floating-point time_point holding the exact value c/|den| s.
       let den ← den.toInt?; let c ← c.toInt?
+      let den := if den < 0 then -den else den
       let e ← st.find id
       let r : Ck String := do
         let (sec, sub) ← Split.splitSeconds 1 den c
